@@ -28,9 +28,12 @@ ASSUMPTIONS = [
 
 def cases(tier, variants):
     if tier == "quick":
-        yield from comp.syn_batches((1, 2), variants)
-        yield from comp.syn_batches((3,), variants, third=0)
-        yield from comp.tiled_batches((5, 8), variants)
+        # cheap enough: the synthetic enumeration runs under ALL numeric variants on every
+        # change (ties and 1-ulp events depend on the numeric table, see DESIGN.md)
+        variants_syn = list(range(core.NVAR))
+        yield from comp.syn_batches((1, 2), variants_syn)
+        yield from comp.syn_batches((3,), variants_syn, third=0)
+        yield from comp.tiled_batches((5, 8), variants_syn)
         yield from F.convex_cases(2, variants, (1, 3), fams=("qp", "soft"),
                                   hesses=("rot2",), extra=dict(part="icp"))
     else:
